@@ -1,8 +1,10 @@
 (* C16/Properties.v — the property theorems only.  Each is closed by [exact] of a lemma from
    Proofs.v and followed by Print Assumptions.
 
-   zlb_recv = false ("repaired"): a ZLB only acknowledges.
-   zlb_recv = true  ("defective"): what internal/l2tp/dispatch.go does today — a ZLB goes through Recv. *)
+   Dispatch rule: zlb_recv = false is what /repo HEAD implements since 96f9f16 (a ZLB only acknowledges);
+   zlb_recv = true is the rule before that fix (a ZLB went through Recv), kept for the refuted witness.
+   Open findings (KNOWN_FINDINGS.txt) that the theorems presuppose repaired: the peer's advertised window is
+   applied at establishment (peer-rws-ignored), and channel operations are atomic (race-channel-goroutines). *)
 From OV Require Import Common.Base C16.Model C16.Proofs.
 Open Scope Z_scope.
 
@@ -53,7 +55,7 @@ Example C16_exactly_once_nonvacuous :
 Proof. exact wrap_run_ok. Qed.
 Print Assumptions C16_exactly_once_nonvacuous.
 
-(* THE CODE AS IT IS TODAY (ZLB through Recv) VIOLATES IT: in this 8-event honest execution B's only
+(* THE RULE BEFORE FIX 96f9f16 (ZLB through Recv) VIOLATES IT: in this 8-event honest execution B's only
    message (200) is removed from B's queue as acknowledged, B is not dead, and A's protocol machine
    never received it. *)
 Theorem C16_exactly_once_refuted :
@@ -71,7 +73,10 @@ Example C16_witness_repaired :
 Proof. exact repaired_delivers_witness. Qed.
 Print Assumptions C16_witness_repaired.
 
-(* WINDOW and RETRANSMISSION BOUND.  For both dispatch rules and every execution, including packets the
+(* WINDOW under later resizing, and RETRANSMISSION BOUND (secondary; the statement about the ADVERTISED window
+   is C16_window_advertised below).  e_wmax is bookkeeping of the model: the configured window and every
+   later SetPeerWindow value, maximum of them — a shrinking SetPeerWindow cannot un-send what is in flight.
+   For both dispatch rules and every execution, including packets the
    peer never sent (Inject): a side never has more messages in flight (transmitted, unacknowledged) than
    the largest receive window its peer advertised (e_wmax: the configured PeerRWS and every later
    SetPeerWindow value), and no queued message has been transmitted more than MaxRetries times. *)
@@ -152,21 +157,20 @@ Example C16_dead_nonvacuous :
 Proof. exact dead_example. Qed.
 Print Assumptions C16_dead_nonvacuous.
 
-(* THE DISPATCH RULE ACKNOWLEDGES EVERYTHING IT RECEIVES.  In any state [n] (so after every message
-   sequence: [node_run n0 pre] below), every non-ZLB control message whose header names the registered tunnel
+(* THE DISPATCH RULE ACKNOWLEDGES EVERYTHING IT RECEIVES.  In ANY node state [n] (hence in every state
+   reachable by any message sequence), every non-ZLB control message whose header names the registered tunnel
    passes through the receive step — first delivery or retransmission, any message type and session id,
    and whatever the message's handler does afterwards (arbitrary replies, tunnel removal; session
    lookups and FSM errors live in the handler): Nr moves exactly by the in-order rule, and either the ZLB
    timer is armed for now + zlbDelay or a packet sent after the receive step already carries the new Nr. *)
 Theorem C16_dispatch_acks_everything :
-  forall n0 pre m now b,
-  let n := node_run n0 pre in
+  forall n m now b,
   n_known n = true -> m_tid_ok m = true -> k_body (m_pkt m) = Some b ->
   let n' := node_dispatch n m now in
   let c := e_ch (n_ep n) in
   c_nr (e_ch (n_ep n')) = (if k_ns (m_pkt m) =? c_nr c then u16 (c_nr c + 1) else c_nr c) /\
   acked_since (e_f (n_ep n)) now (e_sent (n_ep n)) (n_ep n').
-Proof. intros n0 pre m now b. exact (dispatch_acks_everything (node_run n0 pre) m now b). Qed.
+Proof. exact dispatch_acks_everything. Qed.
 Print Assumptions C16_dispatch_acks_everything.
 
 (* ZLBs and messages that do not belong to a registered tunnel never move Nr *)
@@ -184,3 +188,84 @@ Example C16_dispatch_nonvacuous :
   map (fun p => (k_body p, k_nr p)) (e_sent (n_ep (node_run n0 full_msgs))) = [(None, 1); (None, 1)].
 Proof. exact full_example. Qed.
 Print Assumptions C16_dispatch_nonvacuous.
+
+(* WITHIN THE ADVERTISED WINDOW.  [apply_peer_window e adv] is what establishment does once the peer's
+   SCCRQ / SCCRP is known (SetPeerWindow with the Receive Window Size AVP, 4 when absent).  If at that moment at
+   most one message is outstanding (LNS: none; LAC: its SCCRQ) then after EVERY later sequence of inbound
+   messages (any type, accepted or not, any handler replies) and Ticks: the number of transmitted,
+   unacknowledged messages is at most the advertised window (clamped to >= 1), the channel's window field
+   still equals it and cwnd never exceeds it.  No bookkeeping field in the statement. *)
+Theorem C16_window_advertised :
+  forall e adv evs known,
+  1 <= f_maxr (e_f e) -> att_ok (f_maxr (e_f e)) (c_q (e_ch e)) -> count_inflight (c_q (e_ch e)) <= 1 ->
+  let W := Z.max 1 (advertised adv) in
+  let n := node_run (mkN known (apply_peer_window e adv)) evs in
+  count_inflight (c_q (e_ch (n_ep n))) <= W /\ c_pw (e_ch (n_ep n)) = W /\ c_cwnd (e_ch (n_ep n)) <= W.
+Proof. exact window_advertised. Qed.
+Print Assumptions C16_window_advertised.
+
+(* non-vacuity / tightness: peer advertises 2; after its acknowledgements opened the congestion window, four
+   replies are submitted without being acknowledged: exactly 2 are outstanding, 2 wait in the queue *)
+Example C16_window_reached :
+  let n := node_run (mkN true (apply_peer_window (new_endpoint 0 0 0 0 16 0 0) (Some 2))) win_msgs in
+  count_inflight (c_q (e_ch (n_ep n))) = 2 /\ length (c_q (e_ch (n_ep n))) = 4%nat /\
+  c_pw (e_ch (n_ep n)) = 2.
+Proof. exact window_reached. Qed.
+Print Assumptions C16_window_reached.
+
+(* DELIVERED, STILL QUEUED, OR DEAD.  For every execution (HEAD's dispatch rule, no forged packets, < 2^15
+   submissions per direction), every side x and every submission index i of x: message i was handed to the
+   peer's protocol machine, or it is still among the last |queue| submissions of x (queued / in flight, with
+   attempts <= MaxRetries by C16_window), or x has fired its dead callback.  Nothing leaves a queue silently. *)
+Theorem C16_delivered_queued_or_dead :
+  forall ai am ar az aw bi bm br bz bw oa ob evs,
+  honest evs = true ->
+  let s := run false (init_sys (ai, am, ar, az, aw) (bi, bm, br, bz, bw) oa ob) evs in
+  Z.of_nat (length (e_sub (s_a s))) < 32768 -> Z.of_nat (length (e_sub (s_b s))) < 32768 ->
+  forall x i, (i < length (e_sub (ep s x)))%nat ->
+    (i < length (e_del (ep s (peer x))))%nat \/
+    (length (e_sub (ep s x)) - length (c_q (e_ch (ep s x))) <= i)%nat \/
+    (0 < e_dead (ep s x))%nat.
+Proof. exact delivered_queued_or_dead. Qed.
+Print Assumptions C16_delivered_queued_or_dead.
+
+(* ... hence at any point where a sender's queue is empty and it never declared dead, the peer's machine has
+   received exactly the sender's submissions — all of them, once, in order (the C16_exactly_once_nonvacuous
+   run ends in such a state). *)
+Theorem C16_quiescent_all_delivered :
+  forall ai am ar az aw bi bm br bz bw oa ob evs,
+  honest evs = true ->
+  let s := run false (init_sys (ai, am, ar, az, aw) (bi, bm, br, bz, bw) oa ob) evs in
+  Z.of_nat (length (e_sub (s_a s))) < 32768 -> Z.of_nat (length (e_sub (s_b s))) < 32768 ->
+  forall x, c_q (e_ch (ep s x)) = [] -> e_dead (ep s x) = 0%nat ->
+  e_del (ep s (peer x)) = e_sub (ep s x).
+Proof. exact quiescent_all_delivered. Qed.
+Print Assumptions C16_quiescent_all_delivered.
+
+(* PROGRESS UNDER FAIR LOSS, step 1.  In any state satisfying the pair invariant (every reachable one, see
+   Proofs.run_inv) with S not dead: if ANY ONE transmission of the message at the head of S's queue reaches R,
+   that message has been handed to R's machine (now or before). *)
+Theorem C16_head_delivery_progress :
+  forall o S R p r pk b now R' ob,
+  dir_inv o S R -> Z.of_nat (length (e_sub S)) < 32768 -> e_dead S = 0%nat ->
+  c_q (e_ch S) = p :: r -> k_body pk = Some b -> k_ns pk = p_ns p ->
+  ep_deliver false R pk now = (R', ob) ->
+  (length (e_sub S) - length (c_q (e_ch S)) < length (e_del R'))%nat.
+Proof. exact head_delivery_progress. Qed.
+Print Assumptions C16_head_delivery_progress.
+
+(* step 2: once handed over, ANY ONE packet R sends afterwards (data, retransmission or ZLB: all carry R's
+   current Nr, C16_ack_owed says one is owed) that reaches S removes the head from S's queue.
+   Together with C16_dead_after_max (no acknowledgement => dead after MaxRetries expiries) this is the
+   dichotomy under the explicit fair-loss assumption "of the <= MaxRetries transmissions of the head and the
+   acknowledgements they trigger, one of each gets through, or none does": delivered and dequeued, or dead. *)
+Theorem C16_head_ack_progress :
+  forall o S R p r pk now S' ob,
+  dir_inv o S R -> Z.of_nat (length (e_sub S)) < 32768 ->
+  c_q (e_ch S) = p :: r -> 0 < p_att p ->
+  (length (e_sub S) - length (c_q (e_ch S)) < length (e_del R))%nat ->
+  k_nr pk = c_nr (e_ch R) ->
+  ep_deliver false S pk now = (S', ob) ->
+  (length (c_q (e_ch S')) < length (c_q (e_ch S)))%nat.
+Proof. exact head_ack_progress. Qed.
+Print Assumptions C16_head_ack_progress.
